@@ -46,7 +46,7 @@ def BOUNDS(tier):
 
 
 def make_env(label):
-    e = Envelope('s%s@x' % label, ['r%s%d@y' % (label, j) for j in range(3)])
+    e = Envelope('s%s@x' % label, ['r%s%d@y' % (label, j) for j in range(4)])
     e.parse(b'Subject: ' + label.encode() + b'\r\n\r\nbody-' + label.encode() * 30 + b'\r\n\xff\r\n')
     e.client = {'ip': '192.0.2.1', 'name': 'c'}
     e.receiver = 'mx'
@@ -55,7 +55,7 @@ def make_env(label):
 
 
 def histories(H):
-    """well-formed op sequences: ('write',L) first for a label; no op after ('rm',L); one dlv per label."""
+    """well-formed op sequences: ('write',L) first for a label; no op after ('rm',L); one dlv (and for A one second round dlv2) per label."""
     def rec(prefix, state):
         yield prefix
         if len(prefix) >= H:
@@ -65,11 +65,14 @@ def histories(H):
             if s is None:
                 if l == 'A' or 'A' in state:
                     yield from rec(prefix + [('write', l)], dict(state, **{l: 'live'}))
-            elif s in ('live', 'marked'):
+            elif s in ('live', 'marked', 'marked2'):
                 yield from rec(prefix + [('inc', l)], state)
                 yield from rec(prefix + [('ts', l)], state)
                 if s == 'live':
                     yield from rec(prefix + [('dlv', l)], dict(state, **{l: 'marked'}))
+                elif s == 'marked' and l == 'A' and 'B' not in state:
+                    # a second marking round (the queue passes indexes into the already reduced list)
+                    yield from rec(prefix + [('dlv2', l)], dict(state, **{l: 'marked2'}))
                 yield from rec(prefix + [('rm', l)], dict(state, **{l: 'gone'}))
     for h in rec([], {}):
         if h:
@@ -87,6 +90,8 @@ def do_op(st, op, ids):
         return st.set_timestamp(ids[l], T1)
     if k == 'dlv':
         return st.set_recipients_delivered(ids[l], [0, 2])
+    if k == 'dlv2':
+        return st.set_recipients_delivered(ids[l], [0])
     if k == 'rm':
         return st.remove(ids[l])
     if k == 'load':
@@ -244,9 +249,9 @@ def reference(hist, marks, k):
         started = s is not None and s < k
         if op == 'write':
             if done:
-                ref[l] = {'required': True, 'attempts': {0}, 'dlv': {False}, 'ts': {T0}}
+                ref[l] = {'required': True, 'attempts': {0}, 'dlv': {0}, 'ts': {T0}}
             elif started:
-                ref[l] = {'required': False, 'attempts': {0}, 'dlv': {False}, 'ts': {T0}}
+                ref[l] = {'required': False, 'attempts': {0}, 'dlv': {0}, 'ts': {T0}}
             continue
         if l not in ref:
             continue
@@ -261,11 +266,12 @@ def reference(hist, marks, k):
                 r['ts'] = {T1}
             elif started:
                 r['ts'] = r['ts'] | {T1}
-        elif op == 'dlv':
+        elif op in ('dlv', 'dlv2'):
+            # the number of marking rounds that took effect
             if done:
-                r['dlv'] = {True}
+                r['dlv'] = {n + 1 for n in r['dlv']}
             elif started:
-                r['dlv'] = {False, True}
+                r['dlv'] = r['dlv'] | {n + 1 for n in r['dlv']}
         elif op == 'rm':
             if done or started:
                 r['required'] = False
@@ -298,7 +304,12 @@ def judge_crash(hist, ids, marks, k, rec):
         sender, content, rcpts, attempts = g
         okr = set()
         for d in r['dlv']:
-            okr.add(tuple(x for j, x in enumerate(env.recipients) if not (d and j in (0, 2))))
+            left = list(env.recipients)
+            if d >= 1:
+                left = [x for j, x in enumerate(left) if j not in (0, 2)]
+            if d >= 2:
+                left = left[1:]
+            okr.add(tuple(left))
         if sender != env.sender or content != env.flatten():
             out.append(({'kind': 'content-damaged'}, 'message %s came back with sender %r / different content' % (l, sender)))
         if rcpts not in okr:
